@@ -7,6 +7,8 @@ From LV Require Import Base.Bytes Model.Obj Model.DocQ Model.PageTree Model.Trav
   Proofs.EditProofsDelete Proofs.EditProofsKF Proofs.EditProofsContent Model.EditV0 Model.Renumber
   Proofs.EditProofsBm Proofs.EditProofsOutline Proofs.EditProofsContent2 Proofs.EditProofsDecode Proofs.EditProofsRes
   Proofs.EditProofsEx2 Proofs.EditProofsCount Model.StreamFilt.
+From LV Require Import Gen.Consts Spec.Dfs Spec.DfsCounts Spec.PageTreeEdit Proofs.EditProofsTree Proofs.EditProofsTree2.
+From LV Require Proofs.PageTreeProofs.
 From LV Require Proofs.FilterProofsDict.
 From LV Require Model.Outline Spec.OutlineSpec Proofs.OutlineProofs.
 
@@ -376,17 +378,13 @@ Theorem C11_resources_example : ~ category_indirect ex_doc (3, 0)%N K_XObject.
 Proof. exact res_example. Qed.
 
 (* ------------------------------------------------------------------------------------------ *)
-(* I_count, PARTIAL: the Count bookkeeping of delete_pages.  [anc_chain m r l]: l is the chain of dictionary objects the
-   loop meets when it follows Parent from r in m (it ends at a missing Parent, a non-reference Parent or a non-dictionary),
-   none with Count = i64::MIN.  On a chain of pairwise different objects the loop terminates within the fuel delete_pages
-   gives it (never the "hang" outcome), decrements the integer Count of EVERY ancestor by exactly one, leaves everything
-   else alone; delete_pages([n]) = delete_object(page n) (C11_delete_frame, C11_delete_no_reference_left) followed by
-   exactly that.
-   MISSING for the full clause "every Pages node's Count = number of leaf pages below it, page list = old list minus the
-   deleted numbers, order kept": that delete_object reaches every node of a well-formed page tree and that C12's
-   [represents] is preserved (then C12_dfs gives the page list).  Decided on the implementation by the harness
-   (tree_wf before => tree_wf after, page list, contents of the remaining pages) for every generated delete_pages. *)
-Theorem C11_count_loop_partial :
+(* I_count.  (a) On ANY object graph: the Count bookkeeping of delete_pages along the Parent chain.  [anc_chain m r l]: l is
+   the chain of dictionary objects the loop meets when it follows Parent from r in m (it ends at a missing Parent, a
+   non-reference Parent or a non-dictionary), none with Count = i64::MIN.  On a chain of pairwise different objects the loop
+   terminates within the fuel delete_pages gives it (never the "hang" outcome), decrements the integer Count of EVERY
+   ancestor by exactly one, leaves everything else alone; delete_pages([n]) = delete_object(page n) followed by exactly
+   that.  (b) The tree-level clause is C11_delete_pages_tree below. *)
+Theorem C11_count_loop_chain :
   forall m r l fuel, anc_chain m r l -> NoDup (map anc_id l) ->
     (length l < S (length m))%nat /\
     ((length l < fuel)%nat -> count_loop fuel m r = (dec_all m l, LOk)) /\
@@ -400,7 +398,7 @@ Proof.
   split; [apply dec_all_other | intros id d c; apply dec_all_member; exact ND].
 Qed.
 
-Theorem C11_delete_pages_one_partial :
+Theorem C11_delete_pages_one_chain :
   forall d n pid d1 pd l,
     assoc_N (get_pages d) n = Some pid ->
     delete_object d pid = Some (d1, Some (ODict pd)) ->
@@ -419,6 +417,62 @@ Theorem C11_count_example_partial :
     option_map (fun o => match o with ODict nd => dict_get nd K_Count | _ => None end)
                (lookup (d_objects (fst (delete_pages ex_doc [1%N]))) (2, 0)%N) = Some (Some (OInt 1)).
 Proof. exact count_example. Qed.
+
+(* I_count, the tree-level clause ("Page-tree Counts equal the number of leaf pages", delete_pages).
+   Domain ([page_doc d t], Spec/PageTreeEdit.v -- the page tree as every writer lays it out): the trailer's Root names a catalog
+   dictionary object whose Pages entry names the root of the tree t; every node of t is a dictionary OBJECT with unique keys
+   (IndexMap); a leaf has Type Page, an intermediate node Type Pages, Kids = the array of references to its kids, Count =
+   the number of leaf pages below it (an integer, in the dictionary itself); every node below the root names the node it
+   hangs under as its Parent and the root has no Parent reference; the nodes are pairwise different (no page or section is
+   shared between two parents) and the catalog is none of them; the tree is no higher than C12's limit.  NOTHING is assumed
+   about the rest of the graph (other objects may refer to the pages, carry any entries, be unreachable, ..) nor about ns
+   (numbers may repeat or name no page).
+   [prune p t] (the abstract deletion): the kid named p is taken out of the kid list of the node it hangs under, nothing else
+   moves.  The page numbers refer to the numbering BEFORE the call ([get_pages d] is computed once, processor.rs:43).
+   Then delete_pages(ns) neither panics nor hangs, the document again holds a page tree in the same sense -- in particular
+   EVERY Pages node's Count is again the number of leaf pages below it ([page_doc], and in C12's words [tree_wf] and
+   [counts_exact]) --, that tree is the old one with the selected leaves pruned, and the page enumeration afterwards is the
+   old one minus the pages whose NUMBER is in ns, order kept. *)
+Theorem C11_delete_pages_tree :
+  forall d t ns,
+    doc_wf d -> page_doc d t -> (N.of_nat (height t) <= PAGE_TREE_DEPTH_LIMIT + 1)%N ->
+    exists d',
+      delete_pages d ns = (d', LOk) /\ doc_wf d' /\
+      let t' := prune_all (sel (get_pages d) ns) t in
+      page_doc d' t' /\ PageTreeProofs.tree_wf d' t' /\ counts_exact (d_objects d') t' /\
+      page_iter d = leaves t /\ page_iter d' = leaves t' /\
+      page_iter d' = map snd (filter (fun np => negb (existsb (N.eqb (fst np)) ns)) (get_pages d)).
+Proof.
+  intros d t ns W PD Hh. destruct (delete_pages_tree d t ns W PD Hh) as [d' [E [W' [PD' [I1 [I2 I3]]]]]].
+  exists d'. split; [exact E|]. split; [exact W'|]. cbv zeta.
+  destruct (page_doc_tree_wf _ _ PD') as [TW CE]. repeat (split; [assumption|]). exact I3.
+Qed.
+
+(* one round of the loop = the abstract deletion of one kid: for a page p of the tree, or an id that names no object any more
+   (a page number given twice), whatever the page map [pages] says elsewhere *)
+Theorem C11_delete_page_step :
+  forall d t p, doc_wf d -> page_doc d t -> (In p (leaves t) \/ lookup (d_objects d) p = None) ->
+    exists d2,
+      (forall pages n ns, assoc_N pages n = Some p ->
+         delete_pages_loop pages (n :: ns) d = delete_pages_loop pages ns d2) /\
+      doc_wf d2 /\ page_doc d2 (prune p t) /\ leaves (prune p t) = without p (leaves t) /\
+      lookup (d_objects d2) p = None /\
+      (forall x, lookup (d_objects d) x = None -> lookup (d_objects d2) x = None).
+Proof. exact delete_page_step. Qed.
+
+(* the domain in C12's vocabulary: a [page_doc] is a [tree_wf] document with exact Counts *)
+Theorem C11_page_doc_is_tree_wf :
+  forall d t, page_doc d t -> PageTreeProofs.tree_wf d t /\ counts_exact (d_objects d) t.
+Proof. exact page_doc_tree_wf. Qed.
+
+(* non-vacuity: a three-level tree (catalog 1, root 2 with kids page 3, section 4 (page 5), page 6); numbers 2, 2 again and 9
+   (no such page): page 5 goes, section 4 stays with no kids, pages 3 and 6 remain in order *)
+Theorem C11_delete_pages_tree_example :
+  doc_wf tree_doc /\ page_doc tree_doc tree_ex /\ (N.of_nat (height tree_ex) <= PAGE_TREE_DEPTH_LIMIT + 1)%N /\
+  get_pages tree_doc = [(1, (3,0)); (2, (5,0)); (3, (6,0))]%N /\
+  prune_all (sel (get_pages tree_doc) [2; 2; 9]%N) tree_ex = PNode (2,0)%N [PLeaf (3,0)%N; PNode (4,0)%N []; PLeaf (6,0)%N] /\
+  page_iter (fst (delete_pages tree_doc [2; 2; 9]%N)) = [(3,0); (6,0)]%N.
+Proof. exact tree_example. Qed.
 
 (* ------------------------------------------------------------------------------------------ *)
 (* non-vacuity: a concrete document with a page tree and a program that adds a nested bookmark forest (1 > 2 > 3, and 4),
@@ -481,8 +535,12 @@ Print Assumptions C11_resources_add_graphics_state.
 Print Assumptions C11_resources_add_xobject_partial.
 Print Assumptions C11_frame_resource_ops.
 Print Assumptions C11_resources_example.
-Print Assumptions C11_count_loop_partial.
-Print Assumptions C11_delete_pages_one_partial.
+Print Assumptions C11_count_loop_chain.
+Print Assumptions C11_delete_pages_one_chain.
 Print Assumptions C11_count_example_partial.
+Print Assumptions C11_delete_pages_tree.
+Print Assumptions C11_delete_page_step.
+Print Assumptions C11_page_doc_is_tree_wf.
+Print Assumptions C11_delete_pages_tree_example.
 Print Assumptions C11_example.
 Print Assumptions C11_example_doc_ops.
